@@ -15,7 +15,8 @@ Three families (DESIGN.md 5/C03):
         condition numbers 2^30 .. 2^60): the inverse laws with the exact tolerance where every float64 operation is
         exact and with 64*eps*cond otherwise (inv_tol); the same three kinds of A as extra routes of family (iv).
   (iii') representation histories: ONE representation object through evaluations and generator (re-)assignments;
-        rep[w] @ point always belongs to the current generators.
+        rep[w] @ point always belongs to the current generators; also with a caller that recycles in place (T[...] = other)
+        the Transformation / Isometry objects it has assigned: the generator is the transformation that was assigned.
 
 The oracle for the action itself is the definition "every coordinate row v of the object becomes M v"
 (M the matrix acting on column vectors), written with plain einsum / matmul on the unit rows; it never calls
@@ -859,7 +860,10 @@ def case_rep_hist(case):
     """One representation object through a sequence of evaluations (rep[w] @ points for every word of length <= 2,
     or only the words in inverse letters, or the bulk accessors) and generator assignments (re-assigning a or b,
     assigning through the inverse letter A or B); after every step of the sequence that evaluates, and for all
-    words of length <= 3 at the end, rep[w] @ p is M_w p^T with M_w the oracle product of the CURRENT generators."""
+    words of length <= 3 at the end, rep[w] @ p is M_w p^T with M_w the oracle product of the CURRENT generators.
+    With case["hostile"] the caller recycles every Transformation / Isometry object it has assigned, directly after the
+    assignment, for another transformation (item assignment T[...] = other on ITS OWN object): the generators are the
+    transformations that were assigned."""
     from geometry_tools import projective as P, hyperbolic as H
     kind, m, cx, seq = case["kind"], case["m"], case["cx"], case["seq"]
     a, b = rep_generators(kind, m, cx)
@@ -871,15 +875,28 @@ def case_rep_hist(case):
         K = lattice.klein_points(m - 1, m_generic=4, seed=case.get("seed", 0))
         pts = np.array([hyp.klein_to_projective(K[-1]), hyp.klein_to_projective(K[-2], 2.5), hyp.klein_to_projective(K[1])])
     nsup = [0]
+    hostile = case.get("hostile")
+
+    def HK(rest):
+        # one finding class for the hostile caller (per kind of representation)
+        return "rep/history/caller-recycles-assigned-object/%s" % kind if hostile else "rep/history/" + rest
 
     def wrap(g):
         nsup[0] += 1
         if nsup[0] % 2:
             return Cls(np.array(g).copy(), column_vectors=True)
         return Cls(np.array(g).T.copy())
+
+    def assign(letter, g):
+        """rep[letter] = T; a hostile caller then recycles ITS OWN object T in place for another transformation
+        (T[...] = other): the generator is the transformation that was assigned"""
+        T = wrap(g)
+        rep_[letter] = T
+        if hostile:
+            T[...] = Cls(rep_alt_generator(kind, m, cx, 4 + nsup[0] % 2).copy(), column_vectors=True)
     rep_ = Rep()
-    rep_["a"] = wrap(a)
-    rep_["b"] = wrap(b)
+    assign("a", a)
+    assign("b", b)
     model = {"a": a, "b": b}
     v, t = [], 2
     stage = ["fresh"]
@@ -898,22 +915,22 @@ def case_rep_hist(case):
             T = rep_[w]
             t += 2
             if type(T) is not Cls:
-                v.append(V("rep/history/type/%s" % kind, "rep[%r] is a %s" % (w, type(T).__name__)))
+                v.append(V(HK("type/%s" % kind), "rep[%r] is a %s" % (w, type(T).__name__)))
                 return False
             Y = T @ Pt(pts.copy())
             exp = np.einsum("ij,...j->...i", W[w], pts)
             if type(Y) is not Pt or tuple(Y.shape) != (3,):
-                v.append(V("rep/history/type/%s-point" % kind, "rep[%r] @ points is a %s of shape %r" % (w, type(Y).__name__, Y.shape)))
+                v.append(V(HK("type/%s-point" % kind), "rep[%r] @ points is a %s of shape %r" % (w, type(Y).__name__, Y.shape)))
                 return False
             e = rows_err(Y.proj_data, exp)
             if not e <= 1e-9:
-                v.append(V("rep/history/action/%s/%s" % (kind, stage[0]),
+                v.append(V(HK("action/%s/%s" % (kind, stage[0])),
                            "after %r (%s): rep[%r] @ p = %r but M_w p^T = %r for the current generators (sin err %.3g)" % (
                                seq, when, w, Y.proj_data, exp, e)))
                 return False
             e = float(np.max(hyp.proj_sin_err(np.asarray(T.proj_data).T.reshape(-1), W[w].reshape(-1))))
             if not e <= 1e-9:
-                v.append(V("rep/history/matrix/%s/%s" % (kind, stage[0]), "after %r (%s): rep[%r] as a column matrix is not proportional to M_w (sin err %.3g)" % (seq, when, w, e)))
+                v.append(V(HK("matrix/%s/%s" % (kind, stage[0])), "after %r (%s): rep[%r] as a column matrix is not proportional to M_w (sin err %.3g)" % (seq, when, w, e)))
                 return False
         return True
 
@@ -936,13 +953,13 @@ def case_rep_hist(case):
                 t += 2
                 got = np.swapaxes(np.asarray(T.proj_data), -1, -2).astype(complex)
                 if type(T) is not Cls or got.shape != exp.shape:
-                    v.append(V("rep/history/bulk/%s/type" % name, "%s(words) is a %s with data of shape %r" % (name, type(T).__name__, got.shape)))
+                    v.append(V(HK("bulk/%s/type" % name), "%s(words) is a %s with data of shape %r" % (name, type(T).__name__, got.shape)))
                     break
                 e = max(float(np.max(hyp.proj_sin_err(g_.reshape(-1), e_.reshape(-1)))) for g_, e_ in zip(got, exp))
                 img = T @ Pt(pts[0].copy())
                 e2 = float(np.max(hyp.proj_sin_err(np.asarray(img.proj_data).astype(complex), expimg)))
                 if not (e <= 1e-9 and e2 <= 1e-9):
-                    v.append(V("rep/history/bulk/%s/%s/%s" % (name, kind, stage[0]), "after %r (%s): %s(words) is not the oracle image of the current generators (matrix sin err %.3g, action sin err %.3g)" % (
+                    v.append(V(HK("bulk/%s/%s/%s" % (name, kind, stage[0])), "after %r (%s): %s(words) is not the oracle image of the current generators (matrix sin err %.3g, action sin err %.3g)" % (
                         seq, when, name, e, e2)))
                     break
             if v:
@@ -950,7 +967,7 @@ def case_rep_hist(case):
         else:
             letter, idx = op.split("=")
             g = rep_alt_generator(kind, m, cx, int(idx))
-            rep_[letter] = wrap(g)
+            assign(letter, g)
             t += 1
             model[letter.lower()] = g if letter.islower() else np.linalg.inv(g)
             stage[0] = "after-reassignment" if letter.islower() else "after-inverse-letter-assignment"
@@ -1319,7 +1336,8 @@ def run(ctx):
                "under 'inverse, ill-conditioned A'")
     ctx.assume("representation histories: assigning rep[x] = T replaces the generator x AND its inverse letter (assigning through "
                "an inverse letter X makes the generator x the inverse of T); after any sequence of evaluations and assignments "
-               "rep[w] is the word in the current generators")
+               "rep[w] is the word in the current generators; the generator is the transformation T was at the moment of the "
+               "assignment, whatever the caller does with its object T afterwards")
     ctx.tolerances["projective rows"] = "sine of the angle between rows <= 1e-8 (entries <= ~50, errors measured 1e-15..1e-13; defects >= 1e-3)"
     ctx.tolerances["ideal coordinates"] = "1e-6 class (sqrt of a cancelling difference), DESIGN 4.3"
     depth = 4 if deep else 3
@@ -1382,6 +1400,10 @@ def run(ctx):
         seqs = rep_hist_sequences(3 if ctx.quick else 4)
         hcfgs = [("proj", 2, False), ("proj", 2, True), ("proj", 3, False), ("proj", 3, True), ("hyp", 3, False), ("hyp", 4, False)]
         hist = [{"kind": k, "m": m, "cx": cx, "seq": sq, "seed": ctx.seed} for (k, m, cx) in hcfgs for sq in seqs]
+        # the caller recycles the objects it assigned: all sequences of length <= 2 (assignment after evaluation) and the
+        # plain "assign a, b, then act" for every configuration
+        hseqs = [["act"], ["bulk"]] + rep_hist_sequences(2 if ctx.quick else 3)
+        hist += [{"kind": k, "m": m, "cx": cx, "seq": sq, "seed": ctx.seed, "hostile": True} for (k, m, cx) in hcfgs for sq in hseqs]
         ctx.product("representations-histories", "checks.c03:case_rep_hist", hist, chunk=8,
                     domains={"representation (kind, matrix size, complex)": hcfgs, "ops": REP_HIST_OPS,
                              "act": "rep[w] @ (3,) point and rep[w] as a matrix for every word of length <= 2 over {a,b,A,B}",
@@ -1389,4 +1411,7 @@ def run(ctx):
                              "x=k": "rep[x] = k-th replacement generator (x an inverse letter: the generator becomes its inverse); "
                                     "supplied alternately as Cls(M, column_vectors=True) and Cls(M.T)",
                              "sequences": "all of length 2..%d with an assignment somewhere after an evaluation (%d)" % (3 if ctx.quick else 4, len(seqs)),
-                             "final check": "all words of length <= 3"})
+                             "final check": "all words of length <= 3",
+                             "hostile caller": "the sequences ['act'], ['bulk'] and all of length 2..%d again with a caller that, directly after "
+                                               "every rep[x] = T (the two initial ones included), overwrites ITS OWN object in place with another "
+                                               "transformation (T[...] = other); key rep/history/caller-recycles-assigned-object/<kind>" % (2 if ctx.quick else 3)})
